@@ -105,6 +105,7 @@ class Ctx:
         self.current_fn = ''
         self.default_props: Tuple[str, ...] = ()
         self.notes: List[str] = []
+        self.decided: Dict[str, bool] = {}    # simplified condition (s-expression) -> branch taken on this path
         self.inputs: Optional[Dict[str, Any]] = None   # named symbolic inputs (for counterexample read-back)
 
     # ---- fresh symbols -----------------------------------------------------------------------
@@ -182,6 +183,7 @@ class Ctx:
         if not ft and not ff:
             raise PathEnd()
         c = self._next_choice(2, label)
+        self.decided[cond.sexpr()] = (c == 0)
         if c == 0:
             self.assume(cond)
             return True
